@@ -179,6 +179,7 @@ struct State {
     std::map<uint64_t, EhObj> eh_obj;
     std::map<uint64_t, int> mutex_owner;  // mutex addr -> tid+1
     std::map<uint64_t, int> mutex_count;  // recursion depth
+    std::map<uint64_t, std::shared_ptr<std::string>> oss;  // engine-side model of std::ostringstream contents (keyed by object address)
     uint64_t steps = 0;
     uint64_t dhash = 1469598103934665603ULL;
     uint32_t depth = 0;
@@ -859,6 +860,18 @@ struct Engine {
             if (std_exception_base(kv.second, base) && by_name.count(base)) ti_bases[kv.first].push_back({by_name[base], 0});
         }
         if (auto *g = M.getNamedGlobal("__libc_single_threaded")) store(S, gaddr[g], Val::C(8, 1));
+        // External VTTs of the iostream classes (virtual inheritance): inline constructors/destructors load vtable
+        // pointers from them and read the virtual-base offset at vptr[-3].  Point every entry at a fake vtable that
+        // carries the right basic_ios offset so that the (stubbed) stream objects stay navigable.
+        for (GlobalVariable &g : M.globals()) {
+            if (g.hasInitializer() || !g.getName().startswith("_ZTT")) continue;
+            StringRef nm = g.getName();
+            uint64_t vboff = nm.contains("basic_ostringstream") ? 112 : nm.contains("basic_istringstream") ? 120 : nm.contains("basic_stringstream") ? 128 : 8;
+            uint64_t vt = alloc(S, 64, 16, 0);
+            store(S, vt, Val::C(64, vboff));
+            uint64_t a = gaddr[&g];
+            for (unsigned i = 0; i < 16; i++) store(S, a + 8 * i, Val::C(64, vt + 24));
+        }
     }
 
     // find (offset) of base typeinfo `want` inside object of dynamic type `have`; returns false if not a base
